@@ -713,7 +713,9 @@ func runC16HeapContract(c *Ctx) {
 		return len(xs) > 0
 	}
 	check("priorityQueue", "Len", "Len is the number of items", func(r, _ []string) bool {
-		return all(r, func(s string) bool { return strings.HasPrefix(s, "call[builtin.len](") && strings.Contains(s, ".items") })
+		return all(r, func(s string) bool {
+			return strings.HasPrefix(s, "call[builtin.len](") && strings.Contains(s, ".items")
+		})
 	}, "container/heap sifts within [0, Len()): a different length leaves items outside the heap order")
 	check("priorityQueue", "Push", "Push appends the item", func(_, st []string) bool {
 		app, item := false, false
@@ -729,12 +731,16 @@ func runC16HeapContract(c *Ctx) {
 		return app && (item || strings.Contains(strings.Join(st, ";"), "param:1:"))
 	}, "heap.Push sifts up the LAST slot: the new item must be appended there")
 	check("priorityQueue", "Pop", "Pop removes and returns the last item", func(r, st []string) bool {
-		okR := all(r, func(s string) bool { return strings.HasPrefix(s, "index(") && strings.Contains(s, "builtin.len") && strings.Contains(s, "- const:1") })
+		okR := all(r, func(s string) bool {
+			return strings.HasPrefix(s, "index(") && strings.Contains(s, "builtin.len") && strings.Contains(s, "- const:1")
+		})
 		okS := all(st, func(s string) bool { return strings.Contains(s, ".items := slice(") })
 		return okR && okS
 	}, "heap.Pop moves the best item to the last slot before calling Pop: returning another slot hands out a wrong job")
 	check("priorityQueue", "Peek", "Peek is items[0]", func(r, _ []string) bool {
-		return all(r, func(s string) bool { return s == "const:nil" || (strings.HasPrefix(s, "index(") && strings.HasSuffix(s, "const:0)")) })
+		return all(r, func(s string) bool {
+			return s == "const:nil" || (strings.HasPrefix(s, "index(") && strings.HasSuffix(s, "const:0)"))
+		})
 	}, "the best item of a heap is slot 0")
 	check("PriorityQueue", "Pop", "the wrapper's Pop is heap.Pop of its own heap", func(r, _ []string) bool {
 		return all(r, func(s string) bool { return s == "const:nil" || strings.HasPrefix(s, "call[container/heap.Pop](") })
